@@ -168,7 +168,20 @@ fn halfway_variant(d: &Dec, r: &mut Rng, max_tail: usize) -> (Dec, &'static str)
     let mut digits = d.digits.clone();
     let mut dec_exp = d.dec_exp;
     let l = digits.len();
-    match r.below(9) {
+    match r.below(10) {
+        9 => {
+            // the exact tie written with extra zeros at the end of the *integer* part (valid: only
+            // the fraction must be free of trailing zeros), so that the digit count crosses 19 /
+            // MAX_DIGITS by a few and the truncated tail is all zeros
+            let t = match r.below(3) {
+                0 => 1 + r.usize_below(40),
+                1 => (770usize.saturating_sub(l)).max(1) + r.usize_below(30),
+                _ => (115usize.saturating_sub(l)).max(1) + r.usize_below(30),
+            };
+            digits.extend(std::iter::repeat(b'0').take(t));
+            dec_exp -= t as i64;
+            (Dec { digits, dec_exp }, "halfway_zero_padded_integer")
+        },
         0 | 1 => (Dec { digits, dec_exp }, "halfway_exact"),
         2 => {
             // last digit + 1 (never '9' -> the expansions end in 5 or an even/odd integer digit)
@@ -423,7 +436,7 @@ pub fn draw_input(r: &mut Rng, mix: Mix, is_f64_hint: bool, rare_huge: bool) -> 
                 },
             };
             let (v, name) = halfway_variant(&base, r, max_tail);
-            let mut inp = split(&v, r, name);
+            let mut inp = if name == "halfway_zero_padded_integer" { split_at(&v, usize::MAX, 0, name) } else { split(&v, r, name) };
             inp.family = format!("{}_{}", name, if is_f64 { "f64" } else { "f32" });
             inp
         },
